@@ -984,7 +984,7 @@ func c10RetrySlotReleasedBeforeAdmission(c *Ctx) {
 			f := cc.StaticCallee()
 			return f != nil && f.Name() == "reset" && strings.Contains(f.String(), "retryState")
 		}) {
-			if _, isCall := cs.Instr.(*ssa.Call); isCall && instrDominates(cs.Instr, in) && len(cs.Instr.Common().Args) > 0 && cs.Instr.Common().Args[0] == ssa.Value(fn.Params[0]) {
+			if _, isCall := cs.Instr.(*ssa.Call); isCall && instrDominates(cs.Instr, in) && len(cs.Instr.Common().Args) > 0 && sameParam(cs.Instr.Common().Args[0], fn.Params[0]) {
 				released = true
 			}
 		}
